@@ -354,6 +354,8 @@ pub const ENTRIES: &[Entry] = &[
     e!("std_traits", ALL, Args::None),
     e!("traversal_traits", ALL, Args::X),
     e!("algo_object_traits", &[L, M, WI, WU], Args::XY),
+    // the iterator protocol: next() after exhaustion, size_hint, dropping half-consumed iterators
+    e!("iter_protocol", ALL, Args::X),
     e!("prng", &[L], Args::None),
     // generated call sequences: (x, y, cb, t) only encode the sequence's seed
     e!("seq", UNW, Args::XY),
@@ -832,7 +834,10 @@ pub fn body(p: &Prog) -> u64 {
             _ => mk::WU(d).arcs_weighted().map(|(_, _, &w)| w as u64).sum(),
         },
         "vertices" => on!(p, d, [L, M, X, E, WI, WU], |g| g.vertices().sum::<usize>()),
-        "order_size" => on!(p, d, [L, M, X, E, WI, WU], |g| g.order() + g.size()),
+        "order_size" => match p.repr {
+            M => on!(p, d, [M], |g| g.order() + g.size()),
+            _ => on!(p, d, [L, X, E, WI, WU], |g| g.order() + g.size() + g.contiguous_order()),
+        },
         "sinks_sources" => on!(p, d, [L, M, X, E, WI, WU], |g| g.sinks().count() + g.sources().count()),
         "degree_sequence" | "degree_sequence_threaded" => {
             on!(p, d, [L, M, X, E, WI, WU], |g| g.degree_sequence().sum::<usize>())
@@ -1157,6 +1162,36 @@ pub fn body(p: &Prog) -> u64 {
             }
             acc + text.len() as u64
         }
+        "iter_protocol" => on!(p, d, [L, M, X, E, WI, WU], |g| {
+            macro_rules! poke {
+                ($it:expr) => {{
+                    let mut it = $it;
+                    let (lo, hi) = it.size_hint();
+                    let first = it.next().is_some() as usize;
+                    let rest = it.by_ref().count();
+                    // an exhausted iterator keeps answering (None or more items), never touches freed or foreign memory
+                    let after = (0..3).filter(|_| it.next().is_some()).count();
+                    let (lo2, _) = it.size_hint();
+                    // and one that is dropped half-way
+                    let mut half = $it;
+                    let _ = half.next();
+                    drop(half);
+                    lo.min(1) + hi.map_or(0, |h| h.min(1)) + first + rest + after + lo2.min(1)
+                }};
+            }
+            poke!(g.arcs())
+                + poke!(g.vertices())
+                + poke!(g.out_neighbors(x))
+                + poke!(g.in_neighbors(x))
+                + poke!(g.degree_sequence())
+                + poke!(g.sinks())
+                + poke!(Bfs::new(&g, [x].into_iter()))
+                + poke!(BfsDist::new(&g, [x].into_iter()))
+                + poke!(BfsPred::new(&g, [x].into_iter()))
+                + poke!(Dfs::new(&g, [x].into_iter()))
+                + poke!(DfsDist::new(&g, [x].into_iter()))
+                + poke!(DfsPred::new(&g, [x].into_iter()))
+        }),
         "seq" => {
             let xi = IDS.iter().position(|i| *i == p.x).unwrap() as u64;
             let yi = IDS.iter().position(|i| *i == p.y).unwrap() as u64;
